@@ -1,13 +1,14 @@
 #!/bin/bash
-# Prepare an isolated copy for kill-matrix runs: /tmp/kv (copy of /verif's tracked files, harness
-# pointed at /tmp/krepo) and /tmp/krepo (a worktree of /repo's HEAD). Mutants are applied to
-# /tmp/krepo only, so neither /repo nor /verif is touched.
+# Prepare an isolated copy for kill-matrix runs: /tmp/kv$S (copy of /verif's tracked files, harness
+# pointed at /tmp/krepo$S) and /tmp/krepo$S (a worktree of /repo's HEAD). Mutants are applied to
+# /tmp/krepo$S only, so neither /repo nor /verif is touched.
 set -e
-rm -rf /tmp/kv; mkdir -p /tmp/kv
-git -C /verif archive HEAD | tar -x -C /tmp/kv
-sed -i 's#path = "/repo"#path = "/tmp/krepo"#' /tmp/kv/harness/pvmon/Cargo.toml
-if [ -d /tmp/krepo ]; then git -C /repo worktree remove --force /tmp/krepo || rm -rf /tmp/krepo; fi
+S=${1:-}   # optional suffix for a second, independent environment (e.g. "2")
+rm -rf /tmp/kv$S; mkdir -p /tmp/kv$S
+git -C /verif archive HEAD | tar -x -C /tmp/kv$S
+sed -i 's#path = "/repo"#path = "/tmp/krepo$S"#' /tmp/kv$S/harness/pvmon/Cargo.toml
+if [ -d /tmp/krepo$S ]; then git -C /repo worktree remove --force /tmp/krepo$S || rm -rf /tmp/krepo$S; fi
 git -C /repo worktree prune
-git -C /repo worktree add -q --detach /tmp/krepo HEAD
-cp /repo/Cargo.lock /tmp/krepo/
-echo "kill env ready: /tmp/kv (harness -> /tmp/krepo)"
+git -C /repo worktree add -q --detach /tmp/krepo$S HEAD
+cp /repo/Cargo.lock /tmp/krepo$S/
+echo "kill env ready: /tmp/kv$S (harness -> /tmp/krepo$S)"
